@@ -158,7 +158,7 @@ def obs(a):
     a = fully_unfused(a)
     lg = a.get_legs() if a.ndim else ()
     lg = lg if isinstance(lg, (list, tuple)) else (lg,)
-    d = a.to_numpy()
+    d = a.to_numpy() + 0.0          # -0.0 -> 0.0: negated zeros are not an observable difference
     return ('ten', tuple((l.s, l.t, l.D) for l in lg), tuple(a.n), d.shape, str(d.dtype), d.tobytes())
 
 
@@ -420,6 +420,12 @@ def sc_diag_ops(rng, opts):
     a = rtensor(rng, cfg, la, n=allowed_charge(rng, cfg, sym, la), cplx=rng.random() < 0.3, drop=rng.choice([0, 0.3]))
     a, pa = lazy(rng, a)
     axl = pa.index(ax)
+    # sometimes meta-fuse two neighbouring legs that are not the one meeting D (the logical axis then differs from the native one)
+    metafuse = None
+    if op in ('mask', 'broadcast') and a.ndim >= 3 and rng.random() < 0.4:
+        cand = [i for i in range(a.ndim - 1) if axl not in (i, i + 1)]
+        if cand:
+            metafuse = rng.choice(cand)
     M = None
     if op == 'mask':
         M = D.copy()
@@ -434,6 +440,12 @@ def sc_diag_ops(rng, opts):
             return D.diag().diag()
         if op == 'diag_T':
             return D.T.diag()
+        if metafuse is not None:
+            i = metafuse
+            fa = a.fuse_legs(axes=tuple(range(i)) + ((i, i + 1),) + tuple(range(i + 2, a.ndim)), mode='meta')
+            fax = axl if axl < i else axl - 1
+            r_ = D.broadcast(fa, axes=fax) if op == 'broadcast' else M.apply_mask(fa, axes=fax)
+            return r_.unfuse_legs(axes=i)
         if op == 'broadcast':
             return D.broadcast(a, axes=axl)
         if op == 'mask':
@@ -494,7 +506,7 @@ def sc_diag_ops(rng, opts):
         lg = {k: lga[i] for k, i in enumerate(rest)}; lg[len(rest)] = dsame[1]
         return dict(dense=ref, legs=lg, n=a.n)
     return dict(fn=fn, oracle=oracle, operands=[D, a] + ([M] if M is not None else []),
-                describe=dict(sym=sym, op=op, axis=axl, trans=(D.trans, a.trans), legD=str(D.get_legs()), legs_a=str(a.get_legs())))
+                describe=dict(sym=sym, op=op, axis=axl, metafuse=metafuse, trans=(D.trans, a.trans), legD=str(D.get_legs()), legs_a=str(a.get_legs())))
 
 
 def sc_legs(rng, opts):
